@@ -32,11 +32,11 @@ const (
 
 type c18World struct {
 	networkID base.NetworkID
-	main      []base.SuffrageProof         // the remote's honest chain, suffrage height i at block height c18Block(i)
-	foreign   []base.SuffrageProof         // another network history with the same heights, other nodes/hashes
-	late      []base.SuffrageProof         // a foreign history whose suffrage height 0 lives at a non-genesis block
-	fork      map[int]base.SuffrageProof   // fork[k] links from main[k-1] but is not main[k] (k>=1)
-	cand      base.State                   // a candidates state
+	main      []base.SuffrageProof       // the remote's honest chain, suffrage height i at block height c18Block(i)
+	foreign   []base.SuffrageProof       // another network history with the same heights, other nodes/hashes
+	late      []base.SuffrageProof       // a foreign history whose suffrage height 0 lives at a non-genesis block
+	fork      map[int]base.SuffrageProof // fork[k] links from main[k-1] but is not main[k] (k>=1)
+	cand      base.State                 // a candidates state
 }
 
 func c18Hash(s string) util.Hash { return valuehash.NewSHA256([]byte(s)) }
